@@ -23,8 +23,8 @@ def jobs(tier, seed):
     T = supported(quick)
     for tid, src in T.items():
         heavy = any(h in tid for h in HEAVY)
-        if quick and heavy:
-            continue
+        if heavy and (quick or not tid.startswith(("internal.call", "isqrt-free", "arith.uint8.mul", "decimal.floor", "decimal.ceil"))):
+            continue  # multiplication / decimal division templates do not decide within the budget (C03 decides the arithmetic kernels)
         if quick:
             cfgs = ["L-gas", "V-O2"]
             if tid.startswith(("arith.uint8.add", "arith.int128.sub", "cmp.int256.lt", "if.else", "for.range", "storage.", "internal.tuple", "event.static", "convert.decimal.int8", "echo.struct", "sarray.index")):
